@@ -20,12 +20,21 @@
    command word; tokens of deeper levels are inert for the items of a level).  Also proved:
    totality -- on EVERY vector the parser of a flat level yields a value, a help/version document or
    an error message, never a panic outcome or fuel exhaustion (C01_flat_total).
+   ConvTree.v extends the Accept half to WHOLE SUBCOMMAND TREES (any number of subcommands with
+   aliases at every level, the alternative combinator picking the branch whose name stands first on
+   the line) -- C01_sentences_accepted_tree.
+   ConvSound.v proves the CONVERSE for flat levels: every vector the grammar specifies (neither a
+   help request nor an ambiguous short cluster) is parsed to Ok v exactly when it is a sentence
+   denoting v -- C01_flat_complete; what the grammar rejects is never parsed (C01_flat_rejected_never_ok):
+   an item reads backwards to exactly its own occurrences, or leaves one of them behind, and what
+   the scan rejects (unknown name, name without value, stray value, word without a positional) is a
+   token no field can remove.  With C01_flat_total the rejected vectors end in an error message or
+   a help document, never in a panic.
    NOT proved (decided per run by conformance testing of the implementation against `denote`):
-   levels offering a CHOICE of several subcommands (the alternative combinator), and the Reject half
-   beyond unknown names. *)
+   the Reject half for levels WITH subcommands beyond unknown names. *)
 From Coq Require Import List Bool.
 From BpafModel Require Import Conv.
-From BpafLemmas Require Import Tac EvalEq Find Reach Ledger NoLoss C05Lemmas OkReach OkLaws ConvLaws AbsSim AbsTotal ConvRefine ConvTotal ConvChain.
+From BpafLemmas Require Import Tac EvalEq Find Reach Ledger NoLoss C05Lemmas OkReach OkLaws ConvLaws AbsSim AbsTotal ConvRefine ConvTotal ConvChain ConvTree ConvSound.
 Import ListNotations.
 
 (* every sentence of a flat level, in every spelling and order the grammar admits, is accepted and
@@ -51,6 +60,37 @@ Print Assumptions C01_sentences_accepted_chain.
 Theorem C01_chain_ok_decidable : forall l, chain_okb l = true -> chain_ok l.
 Proof. exact chain_okb_sound. Qed.
 Print Assumptions C01_chain_ok_decidable.
+
+(* the same for whole trees of subcommands: any number of subcommands (with aliases) at every level *)
+Theorem C01_sentences_accepted_tree :
+  forall feat env l argv v,
+  tree_ok l ->
+  denote l argv = Accept v ->
+  run_inner feat env (compile_options l) None argv = OutOk v.
+Proof. exact denote_accept_tree. Qed.
+Print Assumptions C01_sentences_accepted_tree.
+
+Theorem C01_tree_ok_decidable : forall l, tree_okb l = true -> tree_ok l.
+Proof. exact tree_okb_sound. Qed.
+Print Assumptions C01_tree_ok_decidable.
+
+(* both directions for the flat level: on every vector the grammar specifies, the parser returns
+   Ok v exactly for the sentences denoting v *)
+Theorem C01_flat_complete :
+  forall feat env items tail argv v,
+  flat_ok items tail -> denote (Level items tail) argv <> Unspecified ->
+  (denote (Level items tail) argv = Accept v <->
+   run_inner feat env (compile_options (Level items tail)) None argv = OutOk v).
+Proof. exact denote_complete_flat. Qed.
+Print Assumptions C01_flat_complete.
+
+(* ... and every other vector is an error: never a value *)
+Theorem C01_flat_rejected_never_ok :
+  forall feat env items tail argv,
+  flat_ok items tail -> denote (Level items tail) argv = Reject ->
+  forall v, run_inner feat env (compile_options (Level items tail)) None argv <> OutOk v.
+Proof. exact denote_reject_flat. Qed.
+Print Assumptions C01_flat_rejected_never_ok.
 
 (* every vector, sentence or not: the outcome is a value, a help/version document or an error
    message -- never a panic outcome, never fuel exhaustion *)
@@ -112,3 +152,10 @@ Example C01_example_flat_ok :
            CArg (mkNamed [111%N] [[111;117;116]%N] [] None) [70%N] TyString ARequired]
           (TPos [mkCPos [87%N] TyString QMany]).
 Proof. apply flat_okb_sound. vm_compute. reflexivity. Qed.
+
+(* a level offering two subcommands meets the premises of C01_sentences_accepted_tree *)
+Example C01_example_tree_ok :
+  tree_ok (Level [CSwitch (mkNamed [118%N] [] [] None)]
+                 (TCmds (CCons [97%N] [] (Level [CSwitch (mkNamed [120%N] [] [] None); CSwitch (mkNamed [121%N] [] [] None)] TNone)
+                        (CCons [98%N] [[99%N]] (Level [CSwitch (mkNamed [122%N] [] [] None); CSwitch (mkNamed [119%N] [] [] None)] TNone) CNil)))).
+Proof. apply tree_okb_sound. vm_compute. reflexivity. Qed.
